@@ -16,7 +16,7 @@ VERIF = os.path.dirname(os.path.dirname(os.path.abspath(__file__)))
 def main():
     args = [a for a in sys.argv[1:] if not a.startswith("--")]
     reverse = "--reverse" in sys.argv
-    patch, tier, checks = args[0], args[1], args[2:]
+    patch, tier, checks = os.path.abspath(args[0]), args[1], args[2:]
     st = subprocess.run(["git", "-C", "/repo", "status", "--porcelain", "--untracked-files=no"], capture_output=True, text=True).stdout
     if st.strip():
         print("refusing: /repo has uncommitted changes:\n" + st)
